@@ -175,7 +175,13 @@ class Prop(object):
         sig = key.sign(b'detached', hash=HashAlgorithm.SHA512, created=K.dt(K.T0 + 9))
         clear = pgpy.PGPMessage.new('cleartext\n- dash line\nend', cleartext=True)
         clear |= key.sign(clear, hash=HashAlgorithm.SHA256, created=K.dt(K.T0 + 9))
+        # (a cleartext message whose first character outside ASCII comes after 9 kB of ASCII: what kind of input it is shows late)
+        late = ''.join('line %04d of plain ascii text, nothing to see here\n' % i for i in range(180)) + 'gr\u00fc\u00dfe \u4e16\u754c\nend'
+        clear_late = pgpy.PGPMessage.new(late, cleartext=True)
+        clear_late |= key.sign(clear_late, hash=HashAlgorithm.SHA256, created=K.dt(K.T0 + 9))
+        self._late_text = late
         return {
+            'cleartext message, late non-ascii': (clear_late, 'SIGNATURE', pgpy.PGPMessage),
             'public key': (key.pubkey, 'PUBLIC KEY BLOCK', pgpy.PGPKey), 'private key': (key, 'PRIVATE KEY BLOCK', pgpy.PGPKey),
             'large public key': (big.pubkey, 'PUBLIC KEY BLOCK', pgpy.PGPKey), 'large private key': (big, 'PRIVATE KEY BLOCK', pgpy.PGPKey),
             'literal message': (msg, 'MESSAGE', pgpy.PGPMessage), 'signed message': (smsg, 'MESSAGE', pgpy.PGPMessage),
@@ -201,17 +207,17 @@ class Prop(object):
                     text = str(obj)
                     binary = bytes(obj)
                     r.transitions += 2
-                    if name == 'cleartext message':
+                    if name.startswith('cleartext message'):
                         a = rarmor.dearmor(text)
                         if a['data'] != binary:
                             probs.append('signature block of the cleartext message does not decode to the binary signatures')
-                        if a['cleartext'] != 'cleartext\n- dash line\nend':
+                        if a['cleartext'] != ('cleartext\n- dash line\nend' if name == 'cleartext message' else self._late_text):
                             probs.append('cleartext read by the independent decoder: %r' % (a['cleartext'],))
                         if not text.startswith('-----BEGIN PGP SIGNED MESSAGE-----\n'):
                             probs.append('cleartext header line')
                     else:
-                        probs += self._check_text(text, binary, label, hdrs if name != 'cleartext message' else ())
-                    base = self._load(cls, binary) if name != 'cleartext message' else None
+                        probs += self._check_text(text, binary, label, hdrs if not name.startswith('cleartext message') else ())
+                    base = self._load(cls, binary) if not name.startswith('cleartext message') else None
                     for form_name, form in (('str', text), ('bytes', text.encode('utf-8')), ('bytearray', bytearray(text.encode('utf-8'))), ('crlf', text.replace('\n', '\r\n')),
                                             ('surrounded', 'To: someone\nSubject: key\n\n' + text + '\n-- \nfooter\n')):
                         with warnings.catch_warnings(record=True) as w:
@@ -220,6 +226,9 @@ class Prop(object):
                         r.transitions += 1
                         if bytes(o2) != binary:
                             probs.append('loading the armor as %s gives an object that exports differently from the binary' % form_name)
+                        if name.startswith('cleartext message') and o2.message.replace('\r\n', '\n') != obj.message.replace('\r\n', '\n'):
+                            # the signed text travels outside the radix-64 part: it is the same text whatever Python type the armor arrives as
+                            probs.append('loading the armor as %s gives another text than the one that was signed' % form_name)
                         if base is not None and bytes(base) != bytes(o2):
                             probs.append('armored load (%s) differs from binary load' % form_name)
                         if any('crc' in str(x.message).lower() for x in w):
@@ -314,7 +323,7 @@ class Prop(object):
                 if right and not loaded:
                     r.viol('wrongkind', {'kind': 'right-kind-rejected', 'obj': name}, case, '%s is rejected by %s.from_blob' % (name, lname))
                 # (a cleartext message's armored block *is* a SIGNATURE block: PGPSignature reading the signature out of it is the right kind)
-                if not right and loaded and not (lname == 'PGPSignature' and name == 'cleartext message'):
+                if not right and loaded and not (lname == 'PGPSignature' and name.startswith('cleartext message')):
                     r.viol('wrongkind', {'kind': 'wrong-kind-accepted', 'loader': lname, 'obj': name}, case,
                            '%s.from_blob accepted an armored %s (block label %s)' % (lname, name, label))
         r.samples.append({'loaders': sorted(loaders)})
